@@ -131,6 +131,38 @@ Theorem C12_unicast_perm_invariant : forall lk wanted ids hs hs',
 Proof. exact unicast_perm_invariant. Qed.
 Print Assumptions C12_unicast_perm_invariant.
 
+(* Burst delivery (the transport hands over a whole batch; datagram_received keeps being called after
+   the counter reached len(queries)): the answer is built from ALL decodable datagrams if there are at
+   least nq of them, so every arrival order of a burst agrees, whatever its size. *)
+Theorem C12_unicast_burst_takes_all : forall nq h, 1 <= nq ->
+  uc_response_burst nq h = match uc_effective_burst nq h with
+                           | Some ms => resp_of_parser (table_of (concat ms)) false
+                           | None => empty_response
+                           end.
+Proof. exact uc_response_burst_spec. Qed.
+Print Assumptions C12_unicast_burst_takes_all.
+
+Theorem C12_unicast_burst_perm_invariant : forall lk wanted ids hs hs',
+  Forall2 (fun h h' => Permutation h h' /\ host_consistent (msgs h)) hs hs' ->
+  items_consistent lk (uc_burst_items lk wanted hs) ->
+  snapshot_equiv (scan_unicast_burst lk wanted ids hs) (scan_unicast_burst lk wanted ids hs').
+Proof. exact unicast_burst_perm_invariant. Qed.
+Print Assumptions C12_unicast_burst_perm_invariant.
+
+(* bursts with the same set of decodable datagrams on the same side of the nq threshold agree
+   (duplicates included) *)
+Theorem C12_unicast_burst_invariant_partial : forall lk wanted ids hs hs',
+  Forall2 (uc_burst_same (nqueries (scan_types wanted))) hs hs' ->
+  items_consistent lk (uc_burst_items lk wanted hs) ->
+  snapshot_equiv (scan_unicast_burst lk wanted ids hs) (scan_unicast_burst lk wanted ids hs').
+Proof. exact unicast_burst_invariant. Qed.
+Print Assumptions C12_unicast_burst_invariant_partial.
+
+(* multicast without identifier filter never stops listening: a burst is the plain run *)
+Theorem C12_multicast_burst_is_plain : forall types h, mc_run_burst types [] h = mc_run types [] h.
+Proof. exact mc_run_burst_noids. Qed.
+Print Assumptions C12_multicast_burst_is_plain.
+
 (* a duplicate is counted as a further answer: 1,2 vs 1,1,2 *)
 Theorem C12_unicast_dup_refuted :
   exists lk wanted hs hs',
